@@ -269,5 +269,5 @@ const smtPrelude = `(set-option :produce-models true)
 (define-fun hint ((b Bool)) Bool b)
 (define-fun hintg ((b Bool)) Bool true)
 (assert (= (strlen str.empty) 0))
-(assert (forall ((s Str)) (! (and (>= (strlen s) 0) (=> (= (strlen s) 0) (= s str.empty))) :pattern ((strlen s)))))
+(assert (forall ((s Str)) (! (and (>= (strlen s) 0) (<= (strlen s) 72057594037927936) (=> (= (strlen s) 0) (= s str.empty))) :pattern ((strlen s)))))
 `
